@@ -266,8 +266,17 @@ def helpers_case(ctx: Ctx, stream: str, i: int) -> None:
         forms = [('tree.dot', lambda: fx.tree.dot({str(k): jnp.asarray(v) for k, v in enumerate(lx_)},
                                                   {str(k): jnp.asarray(v) for k, v in enumerate(ly_)})),
                  ('stokes-matmul', lambda: ccls(*[jnp.asarray(v) for v in lx_]) @ ccls(*[jnp.asarray(v) for v in ly_]))]
+        # the model of the Hermitian sum (FuraxModel/ComplexDot.lean: treeDot over Gaussian rationals; conjugate symmetry,
+        # sesquilinearity, positivity are theorems of Props/C20Complex.lean) on the same integer data — exact comparison
+        def centries(a):
+            return [[str(int(np.real(z))), str(int(np.imag(z)))] for z in np.ravel(a)]
+        repz = ctx.model.ask(['tree-dot-complex', [centries(a) for a in lx_], [centries(b) for b in ly_]])
+        if repz[0] != 'ok' or complex(int(Fraction(repz[1][0])), int(Fraction(repz[1][1]))) != complex(want):
+            ctx.disagree(stream, i, f'Hermitian dot: model {str(repz)[:80]}, NumPy sum of vdot {want}', {'first_complex': cx, 'second_complex': cy})
         for fname, ff in forms:
             stz, dzz = safe(ff)
+            if stz == 'ok' and repz[0] == 'ok' and complex(dzz) != complex(int(Fraction(repz[1][0])), int(Fraction(repz[1][1]))):
+                ctx.disagree(stream, i, f'{fname}: implementation {complex(dzz)}, model {repz[1]}', {'first_complex': cx, 'second_complex': cy, 'kind': kindd})
             if stz != 'ok' or abs(complex(dzz) - want) > 1e-4:
                 ctx.fail(stream, i, f'tree-dot-hermitian:{fname}', f'{fname} with {"complex" if cx else "real"} first and '
                          f'{"complex" if cy else "real"} second leaves gives {dzz if stz == "ok" else stz}, the Hermitian sum '
